@@ -328,7 +328,8 @@ class Functor(pg_object.Object, utils.Functor):
   def __delattr__(self, name: str) -> None:
     """Discard a previously bound argument and reset to its default value."""
     del self._sym_attributes[name]
-    if self.__signature__.get_value_spec(name).has_default:
+    field = self.__class__.__schema__.get_field(name)
+    if field is not None and field.value.has_default:
       self._default_args.add(name)
     self._specified_args.discard(name)
     self._non_default_args.discard(name)
